@@ -14,6 +14,7 @@ import (
 	"os"
 	"regexp"
 	"sort"
+	"strings"
 
 	"verif/harness/internal/pipex"
 )
@@ -133,3 +134,47 @@ func DigestFingerprint(typ, path string) []string {
 
 // LoadPgp reads a PGP key ring.
 var LoadPgp = loadPgp
+
+// ExtractCMS returns the CMS SignedData blobs embedded in a signed artifact, found without relic (PE certificate
+// table, PowerShell signature block, catalog file, JAR/APK signature block files, appx p7x).
+func ExtractCMS(typ, path string) [][]byte {
+	data, err := os.ReadFile(path)
+	if err != nil {
+		return nil
+	}
+	switch typ {
+	case "pe-dll", "pe-exe":
+		if l, err := parsePE(data); err == nil {
+			if blob, err := peCertBlob(data, l); err == nil {
+				return [][]byte{blob}
+			}
+		}
+	case "ps1", "ps1xml", "mof":
+		if blob, err := psSignature(string(data)); err == nil {
+			return [][]byte{blob}
+		}
+	case "cat":
+		return [][]byte{data}
+	case "jar", "apk", "appx":
+		var out [][]byte
+		if zr, err := zip.NewReader(bytes.NewReader(data), int64(len(data))); err == nil {
+			for _, f := range zr.File {
+				u := strings.ToUpper(f.Name)
+				isBlock := strings.HasPrefix(u, "META-INF/") && (strings.HasSuffix(u, ".RSA") || strings.HasSuffix(u, ".EC") || strings.HasSuffix(u, ".DSA"))
+				if !isBlock && f.Name != "AppxSignature.p7x" {
+					continue
+				}
+				if rc, err := f.Open(); err == nil {
+					b, _ := io.ReadAll(rc)
+					rc.Close()
+					if f.Name == "AppxSignature.p7x" && len(b) > 4 {
+						b = b[4:]
+					}
+					out = append(out, b)
+				}
+			}
+		}
+		return out
+	}
+	return nil
+}
